@@ -51,5 +51,5 @@ TableOK == stage = "case" =>
 GenQuickW1 == ConfigsQuick
 GenQuickW2 == {}
 GenThoroughW1 == ConfigsQuick \cup ConfigsSingles \cup ConfigsPairs
-GenThoroughW2 == {x \in ConfigsQuick : x.name \in {"go+reflection", "fastgo+no_fmt", "go/dump", "go+reflection/patch", "go+field_mask"}}
+GenThoroughW2 == {x \in ConfigsQuick : x.name \in {"go+reflection", "fastgo+no_fmt", "go+reflection/patch"}}
 =============================================================================
